@@ -37,6 +37,7 @@ type Clause struct {
 }
 
 type AssertBefore struct {
+	After  bool // checked (and then assumed) after the anchor statement instead of before it
 	Anchor string
 	Clause *Clause
 }
@@ -109,7 +110,7 @@ var clauseKeywords = map[string]bool{
 	"func": true, "trusted": true, "pure": true, "inline": true, "ignore": true, "spec": true, "lemma": true, "import": true,
 	"requires": true, "ensures": true, "modifies": true, "loop": true, "arith": true, "overflow": true, "allow_panic": true,
 	"theory": true, "untrusted_input": true, "pragma": true, "assert": true, "note": true, "tparams": true, "ghost": true, "decl": true, "atcall": true, "ignorepkg": true, "trusted_ensures": true,
-	"guarded_by": true, "requires_held": true, "holds_during": true, "lock_order": true, "unshared": true, "lock_alias": true, "assert_before": true,
+	"guarded_by": true, "requires_held": true, "holds_during": true, "lock_order": true, "unshared": true, "lock_alias": true, "assert_before": true, "assert_after": true,
 }
 
 type rawClause struct {
@@ -398,7 +399,7 @@ func loadContracts(dir, pkgPath string) (*PkgContracts, error) {
 				}
 			case "tparams":
 				cur.TParams = strings.TrimSpace(c.text)
-			case "assert_before":
+			case "assert_before", "assert_after":
 				// assert_before "<substring of the statement's source>" <expr>
 				t := strings.TrimSpace(c.text)
 				if !strings.HasPrefix(t, "\"") {
@@ -408,7 +409,7 @@ func loadContracts(dir, pkgPath string) (*PkgContracts, error) {
 				if k < 0 {
 					return nil, fmt.Errorf("%s:%d: assert_before: unterminated anchor", path, c.line)
 				}
-				cur.AssertsBefore = append(cur.AssertsBefore, &AssertBefore{Anchor: t[1 : 1+k], Clause: &Clause{Text: strings.TrimSpace(t[2+k:]), Line: c.line}})
+				cur.AssertsBefore = append(cur.AssertsBefore, &AssertBefore{After: c.kw == "assert_after", Anchor: t[1 : 1+k], Clause: &Clause{Text: strings.TrimSpace(t[2+k:]), Line: c.line}})
 			case "atcall":
 				// atcall <CalleeName> <expr over caller variables and the callee's parameter names>
 				f := strings.SplitN(strings.TrimSpace(c.text), " ", 2)
